@@ -388,7 +388,7 @@ def c19_units(tier):
         Unit("summary", hs, "zzC19_Summary_N3", f, bounds=b + "; the three scopes the summary line is computed over"),
         Unit("abbreviate-utf8", hs, "zzC19_AbbreviateUTF8", {"loop": 16, "rec": 4, "only": "C19/"}, bounds="byte mode: ANY valid UTF-8 text of <=6 bytes, cut length 2..5 (the call site uses 20; the cut arithmetic does not depend on the constant); validity = RFC 3629 state machine and the library's utf8.ValidString, both executed"),
         Unit("tree-line-layout", hs, "zzC19_TreeLine", WIDTHFLAGS, note="strings abstracted to display widths; CUT: truncateToWidth replaced by its contract (result at most w columns, empty for w<=0); visibleLen/stripANSICodes summarised",
-             bounds="formatTreeLine for ANY widths of prefix, connector, icon, id, title, blocker text (0..2^20 columns each), task or epic, colour on/off, terminal width 0..400, no extra annotations"),
+             bounds="formatTreeLine for ANY widths of prefix, connector, icon, id, title, blocker text (0..1000 columns each), task or epic, colour on/off, terminal width 0..400, no extra annotations"),
     ]
 
 
